@@ -290,6 +290,18 @@ def gen_spiral(rng):
     case["sys"]["switches"] = sorted(rng.sample([0, 1, 2], rng.randint(1, 3)))
     case["cfg"] = {"trace": rng.random() < 0.5}
     reqs = case["requests"]
+    vs = case["sys"]["vars"]
+    selfdep = [i for i, v in enumerate(vs) if v["unit"] != "eternity"
+               and any(d[1] >= i and d[1] < len(vs) for _, e in v["formulas"] for d in rules.deps_of(e))]
+    if selfdep and rng.random() < 0.75:
+        # a spiral taints cache entries, then the top-level formula raises: the purge must still run
+        j = rng.choice(selfdep)
+        k = rng.choice(case["sys"]["switches"])
+        vs.append({"ent": vs[j]["ent"], "type": "int", "unit": vs[j]["unit"], "end": None, "default": 0, "neutral": False,
+                   "formulas": [[[1, 1, 1], ["bin", "add", ["dep", j, "same", "plain"], ["raise", k]]]]})
+        year = rng.choice(rules.BASE_YEARS)
+        for _ in range(rng.randint(1, 2)):
+            reqs.insert(rng.randint(0, len(reqs)), ["calc", len(vs) - 1, rules.gen_period(rng, vs[j]["unit"], year=year)])
     calcs = [r for r in reqs if r[0] in ("calc", "add", "div")]
     for k in case["sys"]["switches"]:
         reqs.append(["switch", k, False])
@@ -328,6 +340,7 @@ class Runner:
         self.sim = rules.build_simulation(self.tbs, self.pop, cfg, self.sys)
         self.inprogress = []      # calls of Simulation.calculate in progress (harness-side)
         self.fired = None         # calls in progress when an exception first passed, + its kind
+        self.reentered = None     # a (variable, period) requested while it was being computed
         if probe:
             self._wrap()
 
@@ -335,6 +348,8 @@ class Runner:
         original = self.sim.calculate        # bound method of the real class
 
         def calculate(variable_name, period):
+            if self.reentered is None and any(n == variable_name and p == period for n, p in self.inprogress):
+                self.reentered = frame_json(variable_name, period)
             self.inprogress.append((variable_name, period))
             try:
                 return original(variable_name, period)
@@ -349,6 +364,7 @@ class Runner:
 
     def do(self, r):
         self.fired = None
+        self.reentered = None
         try:
             return rules.do_request(self.sim, self.sys, self.switches, r)
         except rules.Inexact:
@@ -440,7 +456,7 @@ def _run(case):
             tracer = main.sim.tracer
             cursor_ok = getattr(tracer, "_current_node", None) is None
             steps.append([a, len(tracer.stack), after])
-            state.append([cursor_ok, len(main.sim.invalidated_caches), len(main.inprogress)])
+            state.append([cursor_ok, len(main.sim.invalidated_caches), len(main.inprogress), main.reentered])
             if main.fired is not None:
                 frames, kind = main.fired
                 fired.append({"kind": kind, "frames": [frame_json(n, p) for n, p in frames],
@@ -522,7 +538,7 @@ def oracle(case, obs):
     prev_cache = []
     for k, (r, (a, depth, cache)) in enumerate(zip(reqs, steps)):
         fired = obs["fired"][k]
-        cursor_ok, n_invalid, n_inprogress = obs["state"][k]
+        cursor_ok, n_invalid, n_inprogress, reentered = obs["state"][k]
         what = f"request {k} {json.dumps(r)}"
         # (f) stack, trace cursor, tainted set
         if depth != 0:
@@ -537,6 +553,8 @@ def oracle(case, obs):
                 return f"swallowed: an exception ({fired['kind']}) was raised under {what} but the caller got a value"
             if a.kind != fired["kind"]:
                 return f"swallowed: the caller of {what} got {a.kind}, the failure was {fired['kind']}"
+        if full and reentered is not None and a != Err("ECycle"):
+            return f"swallowed: {reentered} was requested while it was being computed under {what}; the caller got {a}"
         old = {json.dumps(e[0]): e[1] for e in prev_cache}
         now = {json.dumps(e[0]): e[1] for e in cache}
         # (b) no value recorded for a computation that did not complete
